@@ -502,7 +502,7 @@ case_alone(uint64_t idx, void *arg) {
     const char *path;
     int extra;
   } seeds[] = {{0, 1, "r", 0}, {1, 1, "r", 0}, {0, 3, "put", 1}, {0, 1, "obs", 2}, {0, 1, "big", 3}, {0, 2, "zz", 0}, {0, 1, "r", 4}};
-  int maxmut = 400;
+  int maxmut = 660; /* 400 byte-level mutation slots, then the code byte at every value, then the four types */
   int seed = (int)(idx / (uint64_t)maxmut);
   int m = (int)(idx % (uint64_t)maxmut);
   struct w_buf w;
@@ -522,11 +522,21 @@ case_alone(uint64_t idx, void *arg) {
     w_opt_uint(&w, 27, 0x08);
     w_payload(&w, "0123456789abcdef", 16);
   }
-  if (m >= nmut(w.n))
+  if (m < 400 && m >= nmut(w.n))
     return;
   uint8_t buf[300];
   memcpy(buf, w.b, w.n);
-  size_t nl = apply_mut(buf, w.n, m);
+  size_t nl;
+  if (m >= 656) {
+    buf[0] = (uint8_t)((buf[0] & 0xCF) | (m - 656) << 4);
+    nl = w.n;
+    snprintf(mut_desc, sizeof mut_desc, "type:=%d", m - 656);
+  } else if (m >= 400) {
+    buf[1] = (uint8_t)(m - 400);
+    nl = w.n;
+    snprintf(mut_desc, sizeof mut_desc, "code:=%d.%02d", (m - 400) >> 5, (m - 400) & 31);
+  } else
+    nl = apply_mut(buf, w.n, m);
   struct w_msg pm;
   int malformed = !w_parse(buf, nl, &pm);
   ns_init();
@@ -1003,7 +1013,7 @@ main(int argc, char **argv) {
     total += st.done;
   }
   {
-    struct vxp_config c = {.space = "lone-mutated-request", .total = 7 * 400};
+    struct vxp_config c = {.space = "lone-mutated-request", .total = 7 * 660};
     vxp_enumerate(&c, case_alone, NULL, &st);
     total += st.done;
   }
